@@ -77,6 +77,15 @@ theorem referential_write_rejected (c : Cls) (hwf : WF c) (d : Dict) (hg : Good 
     (hr : a ∈ c.refs) (sp : Name) (hf : fold sp = fold a) (v : Val) :
     setattr c d sp v = (d, SetRes.metaExc) := setattr_ref hwf hg v hr hf
 
+/-- an instance that existed BEFORE the association was formalised keeps the value it was created with in `__dict__`
+    under the declared name (`NoStray`, not `Good`): the property shadows it under EVERY spelling - reads go to the
+    property, writes are refused and change nothing (since the repair of `Class.__getattr__` / `__setattr__`, which
+    used to return / overwrite the stale dictionary entry for every spelling but the declared one) -/
+theorem late_formalised_shadowed (c : Cls) (hwf : WF c) (d : Dict) (hn : NoStray c d) (a : Name)
+    (hr : a ∈ c.refs) (sp : Name) (hf : fold sp = fold a) (v : Val) :
+    getattr c d sp = Read.prop a ∧ setattr c d sp v = (d, SetRes.metaExc) :=
+  ⟨getattr_ref_shadow hwf hn hr hf, setattr_ref_any hwf d v hr hf⟩
+
 /-- constructor arguments: defaults (under declared names), positional values and keywords under ANY names and
     spellings act as one history of writes on the cells — the constructor never raises, leaves a good
     dictionary, and each non-referential attribute reads (under every spelling) the last value assigned to its
@@ -306,6 +315,12 @@ namespace PyxProps.C10
 open Pyx.Attr
 
 theorem cB_wf : WF cB := by unfold WF; decide
+/-- `late_formalised_shadowed` applied: the dictionary of an instance created before `formalize` (it stores A_Id = 2) -/
+def dLate : Dict := dB ++ [(['A', '_', 'I', 'd'], .int 2)]
+example : NoStray cB dLate ∧ ¬ Good cB dLate := by unfold NoStray Good; decide
+example : getattr cB dLate ['a', '_', 'i', 'd'] = Read.prop ['A', '_', 'I', 'd'] ∧
+    setattr cB dLate ['a', '_', 'i', 'd'] (.int 5) = (dLate, SetRes.metaExc) :=
+  late_formalised_shadowed cB cB_wf dLate (by unfold NoStray; decide) ['A', '_', 'I', 'd'] (by decide) ['a', '_', 'i', 'd'] (by decide) (.int 5)
 theorem dB_good : Good cB dB := by unfold Good; decide
 
 /-- `one_cell` on (cB, dB, hB): after the history the attribute `Nm`, read under the spelling `nM`, holds the last value
